@@ -441,7 +441,7 @@ def _sact_text(a):
     return _act_str(a)
 
 
-def sim_to_text(sid, sc, stream, fuel=400000, show_exec=False):
+def sim_to_text(sid, sc, stream, fuel=80000, show_exec=False):
     p = ["BEGIN %s sim" % sid]
     p.append("H %d" % len(sc["handlers"]))
     for h in sc["handlers"]:
